@@ -8,7 +8,8 @@ def parseMode : String → Option ProbeMode
   | "ok" => some .ok
   | "fail" => some .fail
   | "hang" => some .hang
-  | s => if s.startsWith "status:" then ((s.drop 7).toString.toNat?).map .status else none
+  | s => if s.startsWith "status:" then ((s.drop 7).toString.toNat?).map .status
+         else if s.startsWith "delay:" then ((s.drop 6).toString.toNat?).map .delay else none
 
 def parseOp (op : String) (kv : KV) : Option Op :=
   match op with
@@ -16,7 +17,7 @@ def parseOp (op : String) (kv : KV) : Option Op :=
   | "hold" => do pure (.hold (← getB kv "name") (← getBool kv "v"))
   | "arm" => do pure (.arm (← get kv "label"))
   | "disarm" => do pure (.disarm (← get kv "label"))
-  | "deploy" => do pure (.deploy (← getNat kv "c") (← getB kv "svc") ((getB kv "host").getD ((getB kv "svc").getD [])) false (← getL kv "targets") (← getNat kv "dt") (← getNat kv "drt") ((getNat kv "rt").getD 0))
+  | "deploy" => do pure (.deploy (← getNat kv "c") (← getB kv "svc") ((getB kv "host").getD ((getB kv "svc").getD [])) false (← getL kv "targets") (← getNat kv "dt") (← getNat kv "drt") ((getNat kv "rt").getD 0) ((getNat kv "hct").getD 300000000))
   | "rollout-deploy" => do pure (.deploy (← getNat kv "c") (← getB kv "svc") [] true (← getL kv "targets") (← getNat kv "dt") (← getNat kv "drt"))
   | "pause" => do pure (.pause (← getNat kv "c") (← getB kv "svc") (← getNat kv "drt") (← getNat kv "failafter"))
   | "stop" => do pure (.stop (← getNat kv "c") (← getB kv "svc") (← getNat kv "drt") (← getB kv "msg"))
